@@ -285,13 +285,13 @@ UpToDate(k) ==
   /\ b.on /\ st[k] = "scanning" /\ ScanFrom(k, 1)[1] = "ok"
   /\ st' = [st EXCEPT ![k] = "done"]
   /\ mem' = [mem EXCEPT ![k].built = epoch]            \* in memory only: no setRuleResult call
-  /\ last' = NoLast
+  /\ last' = [a |-> "Step", how |-> "uptodate"]
   /\ UNCHANGED <<mf, tmpl, fs, marks, db, clock, b, epoch, fin, sawc, seen, flast, tampered, quiet, alldb>>
 
 NeedsRun(k) ==
   /\ b.on /\ st[k] = "scanning" /\ ScanFrom(k, 1)[1] = "rerun"
   /\ st' = [st EXCEPT ![k] = "waiting"]
-  /\ last' = NoLast
+  /\ last' = [a |-> "Step", how |-> "needsrun"]
   /\ UNCHANGED <<mf, tmpl, fs, marks, db, clock, b, mem, epoch, fin, sawc, seen, flast, tampered, quiet, alldb>>
 
 (* TaskInterface::complete + the engine's bookkeeping (Engine.tla Complete  *)
@@ -325,7 +325,7 @@ FinishTargets(k, deps) ==
   /\ b.on /\ Ready(k) /\ RuleKind(k) = "targets" /\ LegalDeps(k, deps)
   /\ Commit(k, Val("success", <<MissingInfo>>, NoSig), FALSE, deps, FALSE)
   /\ b' = [b EXCEPT !.errs = @ \/ \E d \in Range(b.tg) : mem[d].kind = "missing"]
-  /\ last' = NoLast
+  /\ last' = [a |-> "Step", how |-> "targets"]
   /\ UNCHANGED <<mf, tmpl, fs, marks, clock, epoch, sawc, seen, flast, tampered, quiet, alldb>>
 
 FinishSelect(k, deps) ==
@@ -334,7 +334,7 @@ FinishSelect(k, deps) ==
      IF cv.kind \in {"failed", "skipped"}
      THEN Commit(k, Val(cv.kind, <<>>, NoSig), TRUE, deps, FALSE)
      ELSE Commit(k, Val("success", <<cv.infos[i]>>, cv.hash), FALSE, deps, FALSE)
-  /\ last' = NoLast
+  /\ last' = [a |-> "Step", how |-> IF mem[ProducerOf(k)].kind \in {"failed", "skipped"} THEN "select-fail" ELSE "select"]
   /\ UNCHANGED <<mf, tmpl, fs, marks, clock, b, epoch, sawc, seen, flast, tampered, quiet, alldb>>
 
 (* ---- command rules ---- *)
@@ -369,7 +369,7 @@ CancelSkip(k, deps) ==
   /\ Commit(k, Val("skipped", <<>>, NoSig), FALSE, deps, FALSE)
   /\ sawc' = sawc \cup {k}
   /\ b' = [b EXCEPT !.errs = @ \/ HasMissing(k)]
-  /\ last' = NoLast
+  /\ last' = [a |-> "Step", how |-> "cancelskip"]
   /\ UNCHANGED <<mf, tmpl, fs, marks, clock, epoch, seen, flast, tampered, quiet, alldb>>
 
 (* phony: never runs anything.  An alias (output is not a file) stands for  *)
@@ -383,7 +383,7 @@ FinishPhony(k, deps) ==
                  FALSE, deps, TRUE)
      ELSE Commit(k, Val("success", OutInfos(c), Sig(c)), AnyOutMissing(c), deps, TRUE)
   /\ b' = [b EXCEPT !.errs = @ \/ HasMissing(k)]
-  /\ last' = NoLast
+  /\ last' = [a |-> "Step", how |-> IF AnyOutMissing(CmdOf(k)) /\ ~ShouldSkip(k) /\ CanUpd0(k) /\ Newest(k) # 0 THEN "alias" ELSE "phony"]
   /\ UNCHANGED <<mf, tmpl, fs, marks, clock, epoch, sawc, seen, flast, tampered, quiet, alldb>>
 
 (* update-if-newer: outputs exist and are not older than the newest input,  *)
@@ -393,7 +393,7 @@ FinishUpdate(k, deps, chg) ==
   /\ WouldUpdate(k)
   /\ Commit(k, Val("success", OutInfos(CmdOf(k)), Sig(CmdOf(k))), FALSE, deps, chg)
   /\ b' = [b EXCEPT !.errs = @ \/ HasMissing(k)]
-  /\ last' = NoLast
+  /\ last' = [a |-> "Step", how |-> "update"]
   /\ UNCHANGED <<mf, tmpl, fs, marks, clock, epoch, sawc, seen, flast, tampered, quiet, alldb>>
 
 (* an input failed, was skipped or is missing: the command is skipped *)
@@ -405,7 +405,7 @@ FinishSkip(k, deps) ==
          cn == b.canc \/ (HasMissing(k) /\ b.o.k # 0 /\ f = b.o.k) IN
      /\ b' = [b EXCEPT !.errs = @ \/ HasMissing(k), !.nbuilt = @ + 1, !.fails = f, !.canc = cn]
      /\ sawc' = IF cn /\ HasMissing(k) THEN sawc \cup {k} ELSE sawc
-  /\ last' = NoLast
+  /\ last' = [a |-> "Step", how |-> IF HasMissing(k) THEN "skip-missing" ELSE "skip"]
   /\ UNCHANGED <<mf, tmpl, fs, marks, clock, epoch, seen, flast, tampered, quiet, alldb>>
 
 (* ---- the command really runs: the observable step ---- *)
@@ -471,7 +471,8 @@ FinishExec(k, t, deps, chg) ==
              /\ seen' = [seen EXCEPT ![c] = [on |-> TRUE, sig |-> Sig(c), ps |-> NonOO(c),
                                              is |-> [i \in 1..Len(NonOO(c)) |-> ViewInfo(NonOO(c)[i])]]]
      /\ last' = [a |-> "Exec", c |-> c, just |-> Justified(k), fine |-> InputsFine(k),
-                 ordered |-> \A p \in Awaited(k) : Done(p), failed |-> Fails(c)]
+                 ordered |-> \A p \in Awaited(k) : Done(p), failed |-> Fails(c),
+                 kept |-> \E p \in Range(C(c).outs) : Writes(c) /\ ~Rewrites(c, p)]
   /\ UNCHANGED <<epoch, quiet, alldb>>
 
 -----------------------------------------------------------------------------
@@ -498,7 +499,7 @@ RegenEnd ==
           /\ b' = [b EXCEPT !.ph = "main"]
           /\ sawc' = sawc
   /\ st' = [k \in Keys |-> "idle"] /\ fin' = {}
-  /\ last' = NoLast
+  /\ last' = [a |-> "Step", how |-> IF b.nbuilt > 0 THEN "reload" ELSE "regen-none"]
   /\ UNCHANGED <<tmpl, fs, marks, clock, seen, flast, tampered, quiet, alldb>>
 
 BuildEnd ==
